@@ -110,6 +110,25 @@ CHECKS["C15"] = dict(
          "kernels (not in this build); adequacy of has_avx512f for the BW/VL encodings (observation in DESIGN.md).",
     ref="DESIGN.md §3 C15")
 
+CHECKS["C02"] = dict(
+    technique="static analysis: sibling switch-table agreement, who-may-write over struct fields, paired-update and guard rules on the resolved AST",
+    text="Structural clauses: the six type->value-size tables agree; the column reader's cursor fields are written "
+         "only by the page reader and a frozen set of co-writers; values_remaining and page_values_read move by "
+         "the same amount; current_page advances by header+compressed size only with page_loaded cleared and only "
+         "after the page was consumed; a whole-page hand-out requires page_values_read == 0; skip mutates state "
+         "only through read_batch; all scalar null-bitmap builders set a bit iff def < max_def and bitmaps start "
+         "zeroed. Not decided: dense-value offsets for nullable pages, equality of batch and column reader output.",
+    ref="DESIGN.md §3 C02")
+CHECKS["C03"] = dict(
+    technique="static analysis: sibling implementation diff over callee/header-field provenance feature sets; typestate on the ownership tag along CFG paths",
+    text="Structural clauses: the mmap and fread variants of the dictionary and data page loaders have equal "
+         "feature sets (parsers/decoders called, header field feeding each size argument, guards on header fields "
+         "and their error codes, header fields feeding the cursor fields) outside a reasoned allow-list; the three "
+         "footer readers reject short files, wrong trailing magic and oversized footer length; free(decoded_values) "
+         "is unreachable while the buffer may be a mapped view, and a view is stored only with its VIEW tag. Not "
+         "decided: row alignment of batches across columns, lifetime of zero-copy data.",
+    ref="DESIGN.md §3 C03")
+
 NOT_APPLICABLE = {
     "C10": "conformance of Snappy/LZ4 streams to the external grammars is a statement about emitted/accepted byte values; no structural clause beyond the decoder bounds already decided under C08 (DESIGN.md §6)",
     "C12": "conformance of encoder output to the Parquet encoding specification needs an independent codec as value oracle; no sound structural clause (DESIGN.md §6)",
